@@ -477,7 +477,7 @@ func weakenings(r *core.Rand, conc []cty.Value) ([][]cty.Value, []string) {
 	// 3. nested members at any depth
 	{
 		a := cp()
-		wo := gen.WeakenOpts{Pct: 15 + r.Intn(30), Refined: r.Chance(3, 4), TypedOnly: true}
+		wo := gen.WeakenOpts{Pct: 15 + r.Intn(30), Refined: r.Chance(3, 4), TypedOnly: true, InflateSets: true}
 		n := 0
 		for k := range a {
 			w := wo
@@ -517,7 +517,7 @@ func weakenings(r *core.Rand, conc []cty.Value) ([][]cty.Value, []string) {
 		a := cp()
 		k := r.Intn(len(a))
 		var rec []gen.Weakening
-		a[k], rec = gen.Weaken(r, conc[k], gen.WeakenOpts{Pct: 35, Refined: true, TypedOnly: true, ForceOne: true})
+		a[k], rec = gen.Weaken(r, conc[k], gen.WeakenOpts{Pct: 35, Refined: true, TypedOnly: true, ForceOne: true, InflateSets: true})
 		_ = rec
 		if len(a) > 1 && r.Bool() {
 			j := (k + 1 + r.Intn(len(a)-1)) % len(a)
